@@ -35,6 +35,10 @@ type IdP struct {
 	TokenFault    string // "", refuse, noidtoken, badsig, wrongiss, wrongaud, expired, noclaim, 5xx, garbage
 	UserinfoFault string // "", 401, 5xx, garbage, refuse, cut
 	Down          bool   // every request fails at connection level
+	// ExpiredBy: how long ago the ID tokens of the "expired" fault expired (default 10 min)
+	ExpiredBy time.Duration
+	// TokenPad: access tokens are that many characters longer
+	TokenPad int
 	// UserinfoDelay: the userinfo endpoint takes that long to answer (it does answer)
 	UserinfoDelay time.Duration
 
@@ -72,6 +76,10 @@ func (w *World) NewIdP() *IdP {
 func (p *IdP) IssueAccessToken(sub string) string {
 	p.seq++
 	at := fmt.Sprintf("at-%d-%s", p.seq, sub)
+	if p.TokenPad > 0 {
+		// providers that pack group memberships into the access token issue kilobytes
+		at += "." + strings.Repeat("g0123456789abcdef", p.TokenPad/17+1)[:p.TokenPad]
+	}
 	p.Tokens[at] = &IdPToken{Sub: sub}
 	return at
 }
@@ -154,8 +162,12 @@ func (p *IdP) idToken(u *IdPUser, fault string) string {
 	case "wrongaud":
 		claims["aud"] = "someone-else"
 	case "expired":
-		claims["exp"] = now.Add(-10 * time.Minute).Unix()
-		claims["iat"] = now.Add(-20 * time.Minute).Unix()
+		ago := 10 * time.Minute
+		if p.ExpiredBy > 0 {
+			ago = p.ExpiredBy
+		}
+		claims["exp"] = now.Add(-ago).Unix()
+		claims["iat"] = now.Add(-ago - 10*time.Minute).Unix()
 	case "noclaim":
 		for _, k := range []string{"preferred_username", "unique_name", "upn", "username"} {
 			delete(claims, k)
